@@ -8,6 +8,7 @@ package sim
 // reference map and across backends.
 
 import (
+	"errors"
 	"encoding/json"
 	"fmt"
 	"sort"
@@ -215,6 +216,11 @@ func ExecuteC10(t *testing.T, plan *Plan) *RunResult {
 				case "create":
 					err := be.d.Create(c10Key(op.Name, op.Rev), c10Release(op, ns))
 					r.class = c10ErrClass(err)
+					// "creating an existing key fails with already-exists": callers tell it apart with errors.Is, so the
+					// drivers must agree on the error's identity, not only on its wording
+					if r.class == "exists" && !errors.Is(err, driver.ErrReleaseExists) {
+						r.class = "exists-but-not-ErrReleaseExists"
+					}
 				case "update":
 					err := be.d.Update(c10Key(op.Name, op.Rev), c10Release(op, ns))
 					r.class = c10ErrClass(err)
